@@ -308,6 +308,7 @@ package limiter
 //@   ensures[C02] first_try: ncalls("core.Limiter.Acquire") == 1 && callrecv("core.Limiter.Acquire", 0) == l.delegate && callarg("core.Limiter.Acquire", 0, 0) == ctx
 //@   ensures[C02] immediate_grant: callres("core.Limiter.Acquire", 0, 1) && callres("core.Limiter.Acquire", 0, 0) != nil ==> result == callres("core.Limiter.Acquire", 0, 0) && ncalls("(*limiter.queue).push") == 0
 //@   ensures[C12] full_backlog_refuses_at_once: !(callres("core.Limiter.Acquire", 0, 1) && callres("core.Limiter.Acquire", 0, 0) != nil) && callres("(*limiter.queue).len", 0, 0) >= l.maxBacklogSize ==> result == nil && ncalls("(*limiter.queue).push") == 0 && ncalls("select") == 0
+//@   ensures[C12] bound_read_after_the_delegate_refused: ncalls("(*limiter.queue).len") == 1 ==> callpos("core.Limiter.Acquire", 0) < callpos("(*limiter.queue).len", 0)
 //@   ensures[C12] waits_only_below_bound: ncalls("(*limiter.queue).push") == 1 ==> callres("(*limiter.queue).len", 0, 0) < l.maxBacklogSize && callarg("(*limiter.queue).push", 0, 0) == ctx
 //@   ensures[C13] timer_iff_timeout: ncalls("(*limiter.queue).push") == 1 ==> ncalls("time.NewTimer") == ite(l.maxBacklogTimeout > 0, 1, 0) && (l.maxBacklogTimeout > 0 ==> callarg("time.NewTimer", 0, 0) == l.maxBacklogTimeout)
 //@   ensures[C13] waits_on_the_right_channels: ncalls("(*limiter.queue).push") == 1 ==> ncalls("select") == 1 && callarg("select", 0, 0) == callres("(*limiter.queue).push", 0, 1) && (l.maxBacklogTimeout > 0 <==> callarg("select", 0, 1) != nil) && (l.backlogEvictDoneCtx <==> ncalls("context.Context.Done") == 1) && (l.backlogEvictDoneCtx ==> callarg("select", 0, 2) == callres("context.Context.Done", 0, 0)) && (!l.backlogEvictDoneCtx ==> callarg("select", 0, 2) == nil)
